@@ -182,7 +182,10 @@ def reclaim_cases(rng):
             hist.append((H.mk_pkt(127245, src, 255, 2, d2), False))
         for ex, inc in pgn_cfgs:
             for exm, incm in (([], []), ([names[mb]], []), ([names[ma]], []), ([], [names[ma]]), ([], [names[mb]]),
-                              ([H.rand_case_str(rng, names[mb])], [])):
+                              ([H.rand_case_str(rng, names[mb])], []),
+                              # both lists at once: the included name also excluded (other letter case), disjoint, overlapping
+                              ([names[ma].upper()], [names[ma]]), ([names[ma]], [H.rand_case_str(rng, names[ma])]),
+                              ([names[mb]], [names[ma]]), ([names[ma], names[mb]], [names[mb].lower()])):
                 out.append(({"ex": list(ex), "inc": list(inc), "exm": exm, "incm": incm, "nm": rng.random() < 0.3}, hist))
     return out
 
